@@ -300,6 +300,9 @@ func strEq(a, b Value) *Term {
 	if len(pb) == 1 && pb[0].atom != nil && pb[0].atom.kind == 0 && !(len(pa) == 1 && pa[0].atom != nil) {
 		return strEq(b, a)
 	}
+	if t := strEqAligned(pa, pb); t != nil {
+		return t
+	}
 	// structural comparison of ropes with atoms: identical atom objects at the same positions
 	if len(pa) == len(pb) {
 		same := true
@@ -451,4 +454,94 @@ func singleFmtInt(v Value) *Atom {
 		return s.parts[0].atom
 	}
 	return nil
+}
+
+type ropeSeg struct {
+	bytes []*Term
+	atom  *Atom // atom that follows the bytes (nil for the last segment)
+}
+
+func ropeSegments(parts []SPart) []ropeSeg {
+	segs := []ropeSeg{{}}
+	for _, p := range parts {
+		cur := &segs[len(segs)-1]
+		switch {
+		case p.atom != nil:
+			cur.atom = p.atom
+			segs = append(segs, ropeSeg{})
+		case p.b != nil:
+			cur.bytes = append(cur.bytes, p.b)
+		default:
+			for i := 0; i < len(p.lit); i++ {
+				cur.bytes = append(cur.bytes, mkConst(uint64(p.lit[i]), 8))
+			}
+		}
+	}
+	return segs
+}
+
+func isIntChar(b *Term) bool {
+	if !b.isConst() {
+		return true // unknown: could be a digit
+	}
+	c := byte(b.c)
+	return c == '-' || (c >= '0' && c <= '9') || (c >= 'a' && c <= 'f') || (c >= 'A' && c <= 'F')
+}
+
+// strEqAligned decides equality of two ropes that contain integer-format atoms when the segmentation is
+// forced: both ropes have the same number of atoms and every atom is delimited, in both ropes, by concrete
+// bytes that cannot belong to the atom's text (or by the string boundary). Then the ropes are equal iff the
+// byte segments are pairwise equal and the atoms pairwise equal. Returns nil when the condition does not hold.
+func strEqAligned(pa, pb []SPart) *Term {
+	sa, sb := ropeSegments(pa), ropeSegments(pb)
+	if len(sa) != len(sb) || len(sa) < 2 {
+		return nil
+	}
+	for _, segs := range [][]ropeSeg{sa, sb} {
+		for i, sg := range segs {
+			if sg.atom == nil {
+				continue
+			}
+			if sg.atom.kind != 0 {
+				return nil
+			}
+			// byte before the atom
+			if len(sg.bytes) > 0 {
+				if isIntChar(sg.bytes[len(sg.bytes)-1]) {
+					return nil
+				}
+			} else if i > 0 {
+				return nil // two atoms back to back
+			}
+			// byte after the atom
+			next := segs[i+1]
+			if len(next.bytes) > 0 {
+				if isIntChar(next.bytes[0]) {
+					return nil
+				}
+			} else if next.atom != nil {
+				return nil
+			}
+		}
+	}
+	var conj []*Term
+	for i := range sa {
+		x, y := sa[i], sb[i]
+		if len(x.bytes) != len(y.bytes) {
+			return tFalse
+		}
+		for j := range x.bytes {
+			conj = append(conj, mkEq(x.bytes[j], y.bytes[j]))
+		}
+		if (x.atom == nil) != (y.atom == nil) {
+			return nil
+		}
+		if x.atom != nil {
+			if x.atom.base != y.atom.base {
+				return nil
+			}
+			conj = append(conj, mkEq(x.atom.t, y.atom.t))
+		}
+	}
+	return mkAnd(conj...)
 }
